@@ -261,6 +261,15 @@ impl<L: Language> NthChild<L> {
       Ok(())
     }
   }
+
+  /// ofRule is tried on every sibling including the node itself,
+  /// so a reference to `id` inside it requires `id` on the same node
+  pub(crate) fn check_cyclic(&self, id: &str) -> bool {
+    self
+      .of_rule
+      .as_ref()
+      .is_some_and(|rule| rule.check_cyclic(id))
+  }
 }
 
 impl<L: Language> Matcher<L> for NthChild<L> {
